@@ -259,10 +259,10 @@ func (t TS) Equal(o TS) bool {
 	if t.UTCMinutes() != o.UTCMinutes() {
 		return false
 	}
-	if t.Prec >= PSecond {
-		if t.Second != o.Second || t.FracDigits != o.FracDigits || t.frac().Cmp(o.frac()) != 0 {
-			return false
-		}
+	// fields below the precision are zero in a well-formed value; comparing them anyway makes a
+	// reader that leaves stale time-of-day in a coarser timestamp visible
+	if t.Second != o.Second || t.FracDigits != o.FracDigits || t.frac().Cmp(o.frac()) != 0 {
+		return false
 	}
 	return true
 }
